@@ -49,7 +49,7 @@ func rep(b string, n int) string { return strings.Repeat(b, n) }
 func boundary() []script {
 	dump := "it d0 asc - -\nit d0 desc - -"
 	return []script{
-		sc("b-empty-db", true, `
+		sc("b-empty-db", false, `
 			get d0 61
 			has d0 61
 			get d0 -
@@ -196,7 +196,7 @@ func boundary() []script {
 			get d0 61
 			get d0 62
 			`+dump),
-		sc("b-batch-discard", true, `
+		sc("b-batch-discard", false, `
 			set d0 61 01
 			bnew d0 b0
 			bset b0 61 02
@@ -732,7 +732,11 @@ func randomScript(r *kit.Rand, id string, p profile, n int) script {
 			}
 		}
 		if g.collUsed && r.Chance(6) {
-			add("drain c0 d0")
+			if r.Chance(70) {
+				add("drain c0 d0")
+			} else {
+				add("drain c0 %s", anyDB())
+			}
 		}
 	}
 	add("it d0 asc - -")
@@ -782,9 +786,9 @@ func gen(w *kit.Out, r *kit.Rand, tier string) {
 	for _, s := range boundary() {
 		emit(w, s)
 	}
-	nClean, nFull, nMal, length := 60, 60, 10, 30
+	nClean, nFull, nMal, length := 45, 45, 8, 30
 	if tier == "thorough" {
-		nClean, nFull, nMal, length = 450, 450, 30, 45
+		nClean, nFull, nMal, length = 350, 350, 30, 45
 	}
 	rc := r.Fork()
 	for i := 0; i < nClean; i++ {
